@@ -11,6 +11,33 @@
 //! L3 oracles (implementation only): strict RFC 8259 validity + UTF-8, pretty == minified
 //! modulo insignificant whitespace, content against an independent transcription of the DOM
 //! readers, no panic for any of the 108 option/encoding combinations.
+//!
+//! op: `jsonw <opts> <enc> <entry> <cap> <tape> <hex>`: `to_writer` into a writer that fails after <cap> bytes
+//! → `ok` | `err:<hex of what reached the writer>` (covers the `?` arms json/mod.rs:554, 611, 636, 650).
+//! The `json` op also calls `to_string()` and `to_writer(&mut Vec)` of the same builder and requires the
+//! bytes of all three variants to be identical (oracle `variants-differ`).
+//!
+//! Lines of json/mod.rs / text/dom.rs the quick tier cannot reach, and why (tools/coverage.sh):
+//!  * json/mod.rs:311 `panic!("failed to serialize json to vector")` — a `Vec<u8>` writer never fails;
+//!  * json/mod.rs:490 `(_, Ok(x), Ok(_)) => serialize_u64` — unreachable (Lean: C16_narrowing_u64_arm_unreachable:
+//!    `to_u64` ∧ `to_f64` accept ⇒ `to_i64` accepts; values in 2^63..2^64-1 are refused by `to_f64`);
+//!  * json/mod.rs:797 `serialize_key("__invalid_key")` — needs an Array/Object/End token directly followed by an
+//!    Operator token inside a value list; the tape parser only emits an Operator token after a scalar
+//!    (after a container it is a parse error, or in a mixed container the unquoted scalar `=`), a tape cannot
+//!    be built from tokens through the public API, and no generated tape (≈ 4 000 per quick run, 20 000
+//!    thorough) has the shape; the model keeps the arm (`kInvalidKey`, `ItemTag.keyT none`) and C16_content
+//!    covers it;
+//!  * text/dom.rs:24-25 `next_idx_header` on Operator | MixedContainer — a Header token is always followed by
+//!    a container (C06 / `Dom.wfTape`, checked on every tape);
+//!  * text/dom.rs:458 `remainder()`'s `_ => self.token_ind` — only when `remainder()` is called before the
+//!    fields are exhausted, or after the `debug_assert!` arm 495-496 (a non-scalar key: panics in this
+//!    build, never seen); the JSON builders call it after the loop, where the token is End, MixedContainer
+//!    or past the end;
+//!  * text/dom.rs:696, 699 `raw_str` on a Parameter token / on a non-string token — the JSON path calls `read_str` on a
+//!    `ValueReader` only for Unquoted / Quoted / Header tokens and for the key of a `SingleObject` (699 is the
+//!    `__invalid_key` case above; a Parameter token is always a field key, read through `ScalarReader`);
+//!  * text/dom.rs:210-242 (`Reader` enum), 589-594, 671-684 (derive / deserializer helpers), 707-728
+//!    (`read_string`, error closures of `read_str` / `read_scalar` on non-scalars) are not on the JSON path.
 #![allow(dead_code)]
 use crate::common::*;
 use crate::docgen;
@@ -85,6 +112,71 @@ fn run_json<E: Encoding + Clone>(reader: &ObjectReader<E>, o: Opts, entry: &str)
         }
         _ => None,
     }
+}
+
+/// the other two output variants of the same builder: `to_string()` and `to_writer(&mut Vec)`
+fn run_json_variants<E: Encoding + Clone>(reader: &ObjectReader<E>, o: Opts, entry: &str) -> Option<(Vec<u8>, Vec<u8>)> {
+    let mut w: Vec<u8> = vec![];
+    match entry {
+        "obj" => {
+            let s = reader.json().with_options(o.json()).to_string();
+            reader.json().with_options(o.json()).to_writer(&mut w).ok()?;
+            Some((s.into_bytes(), w))
+        }
+        "val" => {
+            let (_k, _op, v) = reader.fields().next()?;
+            let s = v.json().with_options(o.json()).to_string();
+            v.json().with_options(o.json()).to_writer(&mut w).ok()?;
+            Some((s.into_bytes(), w))
+        }
+        "arr" => {
+            let (_k, _op, v) = reader.fields().next()?;
+            let a = v.read_array().ok()?;
+            let s = a.json().with_options(o.json()).to_string();
+            a.json().with_options(o.json()).to_writer(&mut w).ok()?;
+            Some((s.into_bytes(), w))
+        }
+        _ => None,
+    }
+}
+
+/// an `io::Write` that accepts `cap` bytes in total and then fails
+struct FailingWriter {
+    cap: usize,
+    got: Vec<u8>,
+}
+impl std::io::Write for FailingWriter {
+    fn write(&mut self, buf: &[u8]) -> std::io::Result<usize> {
+        let room = self.cap - self.got.len();
+        if room == 0 && !buf.is_empty() {
+            return Err(std::io::Error::new(std::io::ErrorKind::Other, "writer full"));
+        }
+        let k = room.min(buf.len());
+        self.got.extend_from_slice(&buf[..k]);
+        Ok(k)
+    }
+    fn flush(&mut self) -> std::io::Result<()> {
+        Ok(())
+    }
+}
+
+/// `to_writer` into a writer that fails after `cap` bytes: (is_ok, bytes that reached the writer)
+fn run_json_failing<E: Encoding + Clone>(reader: &ObjectReader<E>, o: Opts, entry: &str, cap: usize) -> Option<(bool, Vec<u8>)> {
+    let mut w = FailingWriter { cap, got: vec![] };
+    let r = match entry {
+        "obj" => reader.json().with_options(o.json()).to_writer(&mut w),
+        "val" => {
+            let (_k, _op, v) = reader.fields().next()?;
+            v.json().with_options(o.json()).to_writer(&mut w)
+        }
+        "arr" => {
+            let (_k, _op, v) = reader.fields().next()?;
+            let a = v.read_array().ok()?;
+            a.json().with_options(o.json()).to_writer(&mut w)
+        }
+        _ => return None,
+    };
+    Some((r.is_ok(), w.got))
 }
 
 fn run_enc(tape: &TextTape, enc: &str, o: Opts, entry: &str) -> Option<Vec<u8>> {
@@ -820,6 +912,16 @@ pub fn exec(w: &[&str], obs: &mut Obs) -> Option<String> {
                 }
             };
             obs.count("result:json");
+            // (0) to_vec, to_string and to_writer give the same bytes
+            let variants = if *enc == "w" { run_json_variants(&tape.windows1252_reader(), o, entry) } else { run_json_variants(&tape.utf8_reader(), o, entry) };
+            match variants {
+                Some((s, w)) => {
+                    if s != out || w != out {
+                        obs.violation("variants-differ", &case, &format!("to_vec {:?} to_string {:?} to_writer {:?}", String::from_utf8_lossy(&out), String::from_utf8_lossy(&s), String::from_utf8_lossy(&w)));
+                    }
+                }
+                None => obs.violation("variants-differ", &case, "to_string / to_writer not applicable or failed where to_vec succeeded"),
+            }
             // (1) validity
             let tree = match parse_json(&out) {
                 Ok(t) => Some(t),
@@ -861,6 +963,41 @@ pub fn exec(w: &[&str], obs: &mut Obs) -> Option<String> {
                 count_shapes(tree, obs);
             }
             Some(hex(&canon_floats(&out)))
+        }
+        // failing writer: `to_writer` into a writer that takes <cap> bytes and then fails must return Err (never
+        // panic) iff the output is longer, and what reached the writer must be the first bytes of the full output
+        ["jsonw", so, enc, entry, cap_s, tape_s, h] => {
+            let o = Opts::parse(so)?;
+            if !matches!(*enc, "w" | "u") || !matches!(*entry, "obj" | "arr" | "val") {
+                return None;
+            }
+            let cap: usize = cap_s.parse().ok()?;
+            let input = unhex(h)?;
+            let case = w.join(" ");
+            let tape = match TextTape::from_slice(&input) {
+                Ok(t) => t,
+                Err(_) => {
+                    obs.violation("stale-case", &case, "the input no longer parses");
+                    return Some("parse-error".to_string());
+                }
+            };
+            if show::text_tape(tape.tokens()) != *tape_s {
+                obs.violation("stale-case", &case, "the tape in the case line is not the tape the parser produces for the input");
+            }
+            let full = match run_enc(&tape, enc, o, entry) {
+                Some(x) => x,
+                None => return Some("na".to_string()),
+            };
+            let r = if *enc == "w" { run_json_failing(&tape.windows1252_reader(), o, entry, cap) } else { run_json_failing(&tape.utf8_reader(), o, entry, cap) };
+            let (ok, got) = r?;
+            if !full.starts_with(&got) || got.len() != cap.min(full.len()) {
+                obs.violation("failing-writer-prefix", &case, &format!("writer got {:?}, full output {:?}", String::from_utf8_lossy(&got), String::from_utf8_lossy(&full)));
+            }
+            if ok != (cap >= full.len()) {
+                obs.violation("failing-writer-result", &case, &format!("cap {} output length {} result ok={}", cap, full.len(), ok));
+            }
+            obs.count(if ok { "jsonw:ok" } else { "jsonw:err" });
+            Some(if ok { "ok".to_string() } else { format!("err:{}", hex(&got)) })
         }
         // the tape of an accepted input must satisfy the model's well-formedness hypothesis (the driver
         // evaluates `wfTapeB` and compares the model's conversion with `jsonOfDoc` of the witness tree)
@@ -1042,6 +1179,32 @@ pub fn gen(g: &mut Gen) {
         g.emit(format!("x-json-all {}", hex(f)));
     }
     g.count("fixed-documents");
+
+    // 1b. failing writer: every cut point of the output of small documents (headers, remainder in Group and
+    // Preserve, KeyValuePairs, nested containers), a few cut points of larger ones
+    let fw_docs: Vec<&[u8]> = vec![
+        b"foo=bar", b"color = rgb { 100 200 150 }", b"area = { color = { 10 } 1 2 }", b"mixed={ a=b 10 c=d 20 }", b"levels={ 10 0=2 1=2 }",
+        b"a={b=1} c={b=1 b=2}", b"a > 1 b=yes", b"core=AAA core=BBB", b"generate_advisor = { [[scaled_skill] a=b ] [[!scaled_skill] c=d ]  }",
+        b"a = { b = { c = { d = e } } }", b"b = 3]0 c = {} d = rgb { 1 }", b"k=\"\xe9 \\\" x\"",
+    ];
+    for d in &fw_docs {
+        if let Ok(t) = TextTape::from_slice(d) {
+            let ts = show::text_tape(t.tokens());
+            let hx = hex(d);
+            for (so, enc) in [("mga", "w"), ("ppa", "u"), ("mka", "w"), ("pku", "u"), ("mpn", "w")] {
+                let o = Opts::parse(so).unwrap();
+                for entry in ["obj", "arr", "val"] {
+                    if let Some(full) = run_enc(&t, enc, o, entry) {
+                        let caps: Vec<usize> = if full.len() <= 120 { (0..=full.len() + 1).collect() } else { (0..8).map(|_| g.rng.below(full.len() + 2)).collect() };
+                        for cap in caps {
+                            g.emit(format!("jsonw {} {} {} {} {} {}", so, enc, entry, cap, ts, hx));
+                        }
+                    }
+                }
+            }
+        }
+    }
+    g.count("failing-writer-sweeps");
 
     // 2. scalar narrowing: number-looking scalars, booleans, quoted twins; as field value, array element, key
     for s in number_scalars() {
